@@ -24,7 +24,10 @@ Chain == [i \in DOMAIN LossDims |-> <<"chain", LossDims[i][1], LossDims[i][2]>>]
 Net == Flatten2([n \in 1..(IF Thorough THEN 3 ELSE 2) |-> Flatten2([f \in 1..2 |->
           << <<"net-bce", n, f>>, <<"net-mse", n, f>>, <<"net-ce", n, f, 2>>, <<"net-ce", n, f, 3>> >>])])
 
-Descs == MyCases(Leaf \o Chain \o Net)
+(* the prediction is g(x) + x with x used twice: the prediction's gradient object is handed through Add to x, which then *)
+(* receives a second contribution - the prediction's own gradient must not move                                          *)
+Fan == [i \in DOMAIN LossDims |-> <<"fan", LossDims[i][1], LossDims[i][2]>>]
+Descs == MyCases(Leaf \o Chain \o Fan \o Net)
 
 PDom(loss) == IF loss = "mse" THEN "any,prob01" ELSE "prob01,unit,prob01in,nearbound"     \* nearbound: one ulp / a few ppm off a clipping bound, on either side
 Build(d) ==
@@ -34,6 +37,9 @@ Build(d) ==
     [] d[1] = "chain" ->
          MkCase("c13", d[2], <<In("x", d[3], TRUE), In("d", d[3], FALSE), In("t", d[3], FALSE)>>, <<"unit", "q01", "targ01">>,
                 <<Ins("scale", [k |-> Half], <<1>>), Ins("add", NoPar, <<4, 2>>), Ins(d[2], NoPar, <<5, 3>>)>>, <<5, 6>>, 6, FALSE)
+    [] d[1] = "fan" ->
+         MkCase("c13", d[2] \o "-fan", <<In("x", d[3], TRUE), In("t", d[3], FALSE)>>, <<"q01", "targ01">>,
+                <<Ins("scale", [k |-> Half], <<1>>), Ins("add", NoPar, <<3, 1>>), Ins(d[2], NoPar, <<4, 2>>)>>, <<4, 5>>, 5, FALSE)
     [] d[1] = "net-bce" ->
          MkCaseD("c13", "fc-sigmoid-bce", <<In("w", <<1>>, TRUE), In("b", <<1>>, TRUE), In("x", <<d[2], d[3]>>, TRUE), In("t", <<d[2]>>, FALSE)>>,
                  <<"small", "small", "small", "targ01">>,
